@@ -60,6 +60,15 @@ pub struct EnvState {
     pub acc_ev_key_ok: [bool; 4],
     pub acc_ev_n: usize,
     pub acc_failed: bool,
+    // ---- main loop models (cuts of schedule_renewal / request_certificate / call_post_operation_hooks)
+    pub ml_sched_calls: u32,
+    pub ml_req_calls: u32,
+    pub ml_post_calls: u32,
+    pub ml_req_ok: bool,
+    pub ml_post_success: bool,
+    pub ml_post_status_is_success_word: bool,
+    pub ml_post_status_len: usize,
+    pub ml_ms_at_req: [u64; 3],
 }
 pub static mut ENV: EnvState = EnvState {
     magic: 0x5EED_C0DE_ACED_0001,
@@ -79,6 +88,14 @@ pub static mut ENV: EnvState = EnvState {
     acc_ev_key_ok: [false; 4],
     acc_ev_n: 0,
     acc_failed: false,
+    ml_sched_calls: 0,
+    ml_req_calls: 0,
+    ml_post_calls: 0,
+    ml_req_ok: false,
+    ml_post_success: false,
+    ml_post_status_is_success_word: false,
+    ml_post_status_len: 0,
+    ml_ms_at_req: [0; 3],
 };
 pub fn env() -> &'static mut EnvState {
     unsafe { &mut *core::ptr::addr_of_mut!(ENV) }
